@@ -104,6 +104,7 @@
     {
         if k >= 8 || k < 0 { w } else { ntt_layers(ntt_start_loop(w, ntt_len(k), ntt_m0(k), 0), k + 1) }
     }
+    #[verifier::opaque]
     pub open spec fn spec_ntt(w: Seq<int>) -> Seq<int> { ntt_layers(w, 0) }
     pub open spec fn poly_ints(a: [i32; 256]) -> Seq<int> { Seq::new(256, |i: int| a[i] as int) }
     pub open spec fn cong_seq(a: [i32; 256], s: Seq<int>) -> bool { s.len() == 256 && forall|i: int| 0 <= i < 256 ==> cong(#[trigger] a[i] as int, s[i]) }
@@ -146,6 +147,7 @@
     {
         if k >= 8 || k < 0 { w } else { intt_layers(intt_start_loop(w, intt_len(k), intt_m0(k), 0), k + 1) }
     }
+    #[verifier::opaque]
     pub open spec fn spec_invntt(w: Seq<int>) -> Seq<int> {
         let v = intt_layers(w, 0);
         Seq::new(256, |i: int| (8_347_681 * v[i]) % (Q as int))
@@ -247,6 +249,7 @@
         requires seq_cong(a, b),
         ensures spec_invntt(a) == spec_invntt(b),
     {
+        reveal(spec_invntt);
         lemma_intt_layers_cong(a, b, 0);
         let va = intt_layers(a, 0); let vb = intt_layers(b, 0);
         assert forall|i: int| 0 <= i < 256 implies (8_347_681 * va[i]) % (Q as int) == (8_347_681 * vb[i]) % (Q as int) by {
